@@ -8,8 +8,11 @@ import hashlib
 import logging
 import sys
 
-if "/repo/src" not in sys.path:
-    sys.path.insert(0, "/repo/src")
+import os
+
+_SRC = os.environ.get("AIOFTP_SRC", "/repo/src")
+if _SRC not in sys.path:
+    sys.path.insert(0, _SRC)
 
 import aioftp  # noqa: E402
 import aioftp.client  # noqa: E402
